@@ -84,7 +84,9 @@ impl SaslPlainMechanism {
     fn validate_init(&self, init: SaslInit) -> Option<SaslCode> {
         let response = init.initial_response?.into_vec();
 
-        let mut split = response.split(|b| *b == 0u8);
+        // message = [authzid] NUL authcid NUL passwd (RFC 4616): exactly two
+        // separators, whatever follows the second one is the password
+        let mut split = response.splitn(3, |b| *b == 0u8);
         let _authzid = split.next()?;
         let authcid = split.next()?;
         let passwd = split.next()?;
